@@ -429,7 +429,12 @@ void SPxScaler<R>::getUpperUnscaled(const SPxLPBase<R>& lp, VectorBase<R>& vec) 
    const DataArray < int >& colscaleExp = lp.LPColSetBase<R>::scaleExp;
 
    for(int i = 0; i < lp.LPColSetBase<R>::upper().dim(); i++)
-      vec[i] = spxLdexp(lp.LPColSetBase<R>::upper()[i], colscaleExp[i]);
+   {
+      if(lp.LPColSetBase<R>::upper()[i] < R(infinity))
+         vec[i] = spxLdexp(lp.LPColSetBase<R>::upper()[i], colscaleExp[i]);
+      else
+         vec[i] = lp.LPColSetBase<R>::upper()[i];
+   }
 }
 
 
@@ -461,7 +466,12 @@ void SPxScaler<R>::getLowerUnscaled(const SPxLPBase<R>& lp, VectorBase<R>& vec) 
    const DataArray < int >& colscaleExp = lp.LPColSetBase<R>::scaleExp;
 
    for(int i = 0; i < lp.LPColSetBase<R>::lower().dim(); i++)
-      vec[i] = spxLdexp(lp.LPColSetBase<R>::lower()[i], colscaleExp[i]);
+   {
+      if(lp.LPColSetBase<R>::lower()[i] > R(-infinity))
+         vec[i] = spxLdexp(lp.LPColSetBase<R>::lower()[i], colscaleExp[i]);
+      else
+         vec[i] = lp.LPColSetBase<R>::lower()[i];
+   }
 }
 
 /// returns unscaled objective function coefficient of \p i
@@ -597,7 +607,11 @@ void SPxScaler<R>::getRhsUnscaled(const SPxLPBase<R>& lp, VectorBase<R>& vec) co
    for(int i = 0; i < lp.LPRowSetBase<R>::rhs().dim(); i++)
    {
       const DataArray < int >& rowscaleExp = lp.LPRowSetBase<R>::scaleExp;
-      vec[i] = spxLdexp(lp.LPRowSetBase<R>::rhs()[i], -rowscaleExp[i]);
+
+      if(lp.LPRowSetBase<R>::rhs()[i] < R(infinity))
+         vec[i] = spxLdexp(lp.LPRowSetBase<R>::rhs()[i], -rowscaleExp[i]);
+      else
+         vec[i] = lp.LPRowSetBase<R>::rhs()[i];
    }
 }
 
@@ -629,7 +643,12 @@ void SPxScaler<R>::getLhsUnscaled(const SPxLPBase<R>& lp, VectorBase<R>& vec) co
    const DataArray < int >& rowscaleExp = lp.LPRowSetBase<R>::scaleExp;
 
    for(int i = 0; i < lp.LPRowSetBase<R>::lhs().dim(); i++)
-      vec[i] = spxLdexp(lp.LPRowSetBase<R>::lhs()[i], -rowscaleExp[i]);
+   {
+      if(lp.LPRowSetBase<R>::lhs()[i] > R(-infinity))
+         vec[i] = spxLdexp(lp.LPRowSetBase<R>::lhs()[i], -rowscaleExp[i]);
+      else
+         vec[i] = lp.LPRowSetBase<R>::lhs()[i];
+   }
 }
 
 /// returns unscaled coefficient of \p lp
